@@ -165,3 +165,53 @@ pub fn pk(label: &str, n: u64) -> Pubkey {
     b[0] |= 1;
     Pubkey::new_from_array(b)
 }
+
+/// Some repo crates log through `solana-msg`, which on the host is a plain `println!` that bypasses the
+/// syscall stubs. While shards run, fd 1 is pointed at /dev/null so that only the monitor's own
+/// verdict lines (printed by `Monitor::finish`) reach stdout.
+pub struct StdoutSilencer {
+    saved: i32,
+}
+
+pub fn silence_stdout() -> StdoutSilencer {
+    use std::io::Write;
+    let _ = std::io::stdout().flush();
+    // SAFETY: plain POSIX fd juggling on the process' own stdout.
+    unsafe {
+        let saved = libc::dup(1);
+        let null = libc::open(c"/dev/null".as_ptr(), libc::O_WRONLY);
+        if null >= 0 {
+            libc::dup2(null, 1);
+            libc::close(null);
+        }
+        StdoutSilencer { saved }
+    }
+}
+
+impl StdoutSilencer {
+    pub fn restore(self) {
+        use std::io::Write;
+        let _ = std::io::stdout().flush();
+        // SAFETY: see above.
+        unsafe {
+            if self.saved >= 0 {
+                libc::dup2(self.saved, 1);
+                libc::close(self.saved);
+            }
+        }
+    }
+}
+
+/// Workload size by tier, optionally shrunk with `--scale <percent>` (used for wide seed sweeps).
+pub fn scaled(args: &vcommon::Args, quick: u64, thorough: u64) -> u64 {
+    (args.scale(quick, thorough) * scale_pct(args) / 100).max(1)
+}
+
+pub fn scale_pct(args: &vcommon::Args) -> u64 {
+    args.extra.get("scale").and_then(|s| s.parse::<u64>().ok()).unwrap_or(100).clamp(1, 1000)
+}
+
+/// `require` thresholds shrink with the workload.
+pub fn req(args: &vcommon::Args, mon: &mut vcommon::Monitor, key: &str, min: u64) {
+    mon.require(key, (min * scale_pct(args).min(100) / 100).max(1));
+}
